@@ -95,7 +95,9 @@ def check_config(run, pkg, fname, ndim, tri, style):
     run.ob("R-PROTO", fq, f"{cfg}:names", ok_names, "coordinate style is taken from the column names after 'id type' on header line 9",
            f"{len(asked)} style tests", witness=None if ok_names else "style detected from another line / column offset", loc=loc, sound=True)
     # atom loop domain
-    Lid = rr.atom_loops[0]
+    Lid = rr.atom_loops[0] if rr.atom_loops else None
+    if Lid not in rr.it.loops:
+        raise AnalysisError(f"{fq} [{cfg}]: the loop that reads the atom lines was not identified (atom stores outside a counted loop)")
     L = rr.it.loops[Lid]
     e, at = tr(ae.deep(L.iter[2][0])) if L.iter and L.iter[0] == "call" and L.iter[1] == "builtins.range" and len(L.iter[2]) == 1 else (None, True)
     ok_dom = True if (e is not None and e == sp.Symbol("L3_0", real=True)) else (False if (e is not None and not at) else None)
